@@ -54,4 +54,13 @@ def check (ks : List Nat) (prev : List Nat) (o : Obs) : Bool :=
   o.count == countAfter ks o.ints &&
   allLe o.acked o.ints && allLe prev o.ints
 
+/-- An auxiliary document per writer (C03): batch `n` writes `n` into it, and a separate batch that
+    holds nothing but its deletion may follow.  Seen together with the writer's batch number `p`, the
+    document either carries `p` or is absent; and it must be absent when the deletion that followed
+    batch `p` (or a later one) had been acknowledged before the read began. -/
+def auxOK (ints aux ackedDel : List Nat) : Bool :=
+  aux.length == ints.length &&
+  ((ints.zip (aux.zip (ackedDel ++ List.replicate ints.length 0))).all
+    (fun t => (t.2.1 == 0 || t.2.1 == t.1) && (if t.1 ≤ t.2.2 ∧ 0 < t.1 then t.2.1 == 0 else true)))
+
 end Bleve.History
